@@ -44,6 +44,8 @@ pub struct Case {
 fn fname() -> impl Strategy<Value = Vec<u8>> {
     prop_oneof![
         4 => "[A-Z][A-Z0-9_]{0,8}".prop_map(|s| s.into_bytes()),
+        // names ending in the suffixes of the LAYER env format, which mean nothing in <platform>/env
+        1 => prop_oneof![Just(b"JAVA_TOOL_OPTIONS.append".to_vec()), Just(b"spring.profiles.default".to_vec()), Just(b"X.override".to_vec()), Just(b"PATH.prepend".to_vec()), Just(b"PATH.delim".to_vec()), Just(b"PATH".to_vec())],
         3 => proptest::collection::vec(prop_oneof![6 => Just(b'a'), 2 => Just(b'.'), 2 => Just(b' '), 2 => Just(b'='), 2 => Just(0xffu8), 1 => Just(b'\n'), 1 => (1u8..=255).prop_filter("slash", |b| *b != b'/')], 1..10).prop_filter("dots", |n| n != b"." && n != b".."),
     ]
 }
@@ -523,7 +525,7 @@ fn nontrivial(c: &Case) -> bool {
 }
 
 pub fn run(ctx: &Ctx) {
-    ctx.set_rule("contexts of real detect/build executions of a scripted buildpack that dumps its context: platform directories (0..8 entries: files with byte-string names incl. dots, spaces, '=', newline, non-UTF-8 and UTF-8 contents incl. empty/trailing newlines/multi-line/padded; sub-directories; symlinks to files (direct and chained), to directories (absolute, and relative to the env directory like Kubernetes' ..data), dangling; env dir missing; platform dir missing), buildpack plans (0..4 entries with nested metadata of every TOML kind), store tables or no store.toml, descriptors with optional fields/targets/nested metadata, CNB_TARGET_* values from {unset (optional only), '', linux, v8, unicode, padded}, three spellings of CNB_BUILDPACK_DIR and the layers argument; separately generated classes with one unrepresentable value (non-UTF-8 file content in a regular file or behind one or two symlinks, non-UTF-8 value of a mandatory target variable, non-UTF-8 CNB_TARGET_ARCH_VARIANT, store.toml with non-UTF-8 bytes, store.toml being a directory, buildpack plan with non-UTF-8 bytes). Every third case runs as the SECOND detect/build in its process, after a complete run of another buildpack with other inputs. Inputs are emitted by the harness's own TOML emitter. Oracle: field-by-field equality of the dump with the generated inputs (directories after lexical normalisation); unrepresentable value => reported error (non-zero exit, error handler once, no context) — non-UTF-8 file content handed on byte for byte is accepted too, as are a reported error for a dangling link or a missing platform directory and 'no store' for a directory at store.toml. Non-trivial: platform env has >= 1 file plus >= 1 symlink/directory, or plan/store/descriptor metadata nested >= 2; distinct = hash of the case.");
+    ctx.set_rule("contexts of real detect/build executions of a scripted buildpack that dumps its context: platform directories (0..8 entries: files with byte-string names incl. dots, spaces, '=', newline, non-UTF-8, names ending in .append/.default/.override/.prepend/.delim and UTF-8 contents incl. empty/trailing newlines/multi-line/padded; sub-directories; symlinks to files (direct and chained), to directories (absolute, and relative to the env directory like Kubernetes' ..data), dangling; env dir missing; platform dir missing), buildpack plans (0..4 entries with nested metadata of every TOML kind), store tables or no store.toml, descriptors with optional fields/targets/nested metadata, CNB_TARGET_* values from {unset (optional only), '', linux, v8, unicode, padded}, three spellings of CNB_BUILDPACK_DIR and the layers argument; separately generated classes with one unrepresentable value (non-UTF-8 file content in a regular file or behind one or two symlinks, non-UTF-8 value of a mandatory target variable, non-UTF-8 CNB_TARGET_ARCH_VARIANT, store.toml with non-UTF-8 bytes, store.toml being a directory, buildpack plan with non-UTF-8 bytes). Every third case runs as the SECOND detect/build in its process, after a complete run of another buildpack with other inputs. Inputs are emitted by the harness's own TOML emitter. Oracle: field-by-field equality of the dump with the generated inputs (directories after lexical normalisation); unrepresentable value => reported error (non-zero exit, error handler once, no context) — non-UTF-8 file content handed on byte for byte is accepted too, as are a reported error for a dangling link or a missing platform directory and 'no store' for a directory at store.toml. Non-trivial: platform env has >= 1 file plus >= 1 symlink/directory, or plan/store/descriptor metadata nested >= 2; distinct = hash of the case.");
     ctx.assume("paths and argv are UTF-8");
     let scratch = Scratch::new("c06");
     for (_p, v) in ctx.regress_files() {
